@@ -259,14 +259,14 @@ class Aberrations:
 
     def _TAchC_term(self, k):
         """Compute first-order transverse axial color term"""
-        return (-self._ya[k-1] * self._i[k-1] /
+        return (-self._ya[k] * self._i[k-1] /
                 (self._n[-1] * self._ua[-1]) *
                 (self._dn[k-1] - self._n[k-1] / self._n[k] *
                 self._dn[k]))
 
     def _TchC_term(self, k):
         """Compute first-order lateral color term"""
-        return (-self._ya[k-1] * self._ip[k-1] /
+        return (-self._ya[k] * self._ip[k-1] /
                 (self._n[-1] * self._ua[-1]) *
                 (self._dn[k-1] - self._n[k-1] /
                 self._n[k] * self._dn[k]))
